@@ -34,7 +34,7 @@ SIZE = {"C12": 2000, "C11": 1000, "C10": 750, "C17": 400}
 # cases appended behind the first SIZE ones (so that those stay as recorded): constellations the first generator never builds -
 # a header column shared by two signals (`IO_out` is the expected column of the bidirectional IO *and* of an output or a declared
 # virtual signal that is itself called IO_out) with different widths; an input the header omits in front of listed ones
-EXTRA = {"C07": 80, "C06": 80, "C03": 60, "C14": 40, "C02": 40, "C05": 40, "C11": 400, "C13": 150, "C10": 40, "C12": 300, "C19": 80}
+EXTRA = {"C07": 80, "C06": 80, "C03": 60, "C14": 40, "C02": 40, "C05": 40, "C11": 400, "C13": 150, "C10": 160, "C12": 300, "C19": 80}
 # C11 extra cases: undamaged signal lists, but a `C` may stand in ANY column (an output's, a bidirectional signal's `_out`
 # column, a virtual signal's): the recorded verdict says which of these bind
 
@@ -516,6 +516,10 @@ def generate(focus, n=None):
     cases = []
     for k in range(n):
         rnd = random.Random(f"{focus}/{k}")
+        if k >= base + 40 and focus == "C10":
+            # C / bits entries anywhere in the row: whatever binds must run without a panic (C10 / C11)
+            cases.append(Gen(rnd, "C01", exotic=rnd.random() < 0.3, c_anywhere=True).scenario().replace("\nprogram\n", "\nstatic\ncontinue\nprogram\n", 1))
+            continue
         if k >= base and focus == "C10":
             cases.append(many_x(rnd))
             continue
